@@ -32,10 +32,10 @@ OBLIGATIONS = [
     "Grog.C20.inverse_direct",
     "Grog.C20.owners_exact",
     "Grog.C20.list_exact",
-    "Grog.C20.edit_predicts",
-    "Grog.C20.addEdges_nodup",
+    "Grog.C20.edit_predicts_partial",
+    "Grog.C20.addEdges_spec",
     "Grog.C20.old_paths_duplicate_witness",
-    "Grog.C20.old_addEdge_duplicate_witness",
+    "Grog.C20.old_print_duplicate_witness",
 ]
 ASSUMPTIONS = [
     "labels of distinct nodes are distinct (BuildNodeMap is keyed by label) — hypothesis LabelsDistinct of the exactness theorems",
